@@ -1,4 +1,5 @@
-"""C14 — what is sent to the server is the documented operation format only (outbound direction).
+"""C14 — what is sent to the server is the documented operation format only, and a version written in that format by
+another implementation is applied correctly (inbound direction: the derive-generated Deserialize visitors are executed).
 
 The crate's derive-generated Serialize impls for SyncOp and Version are executed against a model
 serializer that records the abstract JSON document; the document that reaches the Server trait in a real
@@ -117,6 +118,117 @@ class Harness:
         return out
 
 
+
+PERMS = [(0, 1, 2, 3), (3, 2, 1, 0), (1, 2, 3, 0), (2, 3, 0, 1), (3, 0, 1, 2), (1, 0, 3, 2)]
+UPDATE_FIELDS = ('uuid', 'property', 'value', 'timestamp')
+
+
+class InboundHarness:
+    """a version written by another implementation in the documented format (docs/src/sync-protocol.md): operations of all
+    kinds, `value` a string or null, the fields of an Update in other orders than this implementation emits.  The real
+    `Deserialize` impls of Version / SyncOp (visit_map, visit_enum, the identifier visitors) run on the document inside a
+    real sync of an empty replica; the replica must end in the state the documented meaning of the operations gives"""
+
+    def __init__(self, nops, name):
+        self.I = get_interp()
+        self.nops, self.name = nops, name
+
+    def run_path(self, ctx):
+        from mirsym.models import serde_de
+        from mirsym.values import Bytes
+        from .common import ref_apply
+        c, I = ctx, self.I
+        w = SyncWorld(I, ctx, 1, (1, 2), ('p', 'q'))
+        I.env['json_decode'] = serde_de.deserialize_document
+        descs, docs, meaning = [], [], []
+        for i in range(self.nops):
+            kind = ['Create', 'Delete', 'Update', 'Update-null'][c.choose(4, 'kind')]
+            u = [1, 2][c.choose(2, 'uuid')] if i else 1
+            if kind in ('Create', 'Delete'):
+                docs.append(('obj', [(kind, ('obj', [('uuid', ('uuid', u))]))]))
+                meaning.append(I.mk_enum('SyncOp', kind, [u]))
+                descs.append({'kind': kind, 'uuid': u})
+            else:
+                prop = ['p', 'q'][c.choose(2, 'prop')]
+                val = None if kind == 'Update-null' else 'x%d' % i
+                ts = w.fresh_ts()
+                fields = {'uuid': ('uuid', u), 'property': ('str', prop), 'value': ('str', val) if val is not None else ('null',),
+                          'timestamp': ('rfc3339', dt(ts))}
+                perm = PERMS[c.choose(len(PERMS), 'field-order')]
+                order = [UPDATE_FIELDS[k] for k in perm]
+                docs.append(('obj', [('Update', ('obj', [(k, fields[k]) for k in order]))]))
+                meaning.append(I.mk_enum('SyncOp', 'Update', [u, prop, Some(val) if val is not None else NONE(), dt(ts)]))
+                descs.append({'kind': 'Update', 'uuid': u, 'prop': prop, 'value': val, 'ts': ts, 'order': order})
+                if perm != PERMS[0]:
+                    c.cover('inbound: fields of an Update in another order')
+                if val is None:
+                    c.cover('inbound: null value')
+        doc = ('obj', [('operations', ('arr', docs))])
+        js = extern.JsonStr(doc, 0)
+        w.server.chain.append((0, w.new_version_id(), Bytes('json', js)))
+
+        def wit(m):
+            return {'replicas': 1, 'kind': 'sync', 'preload': [foreign_text(descs, m)], 'steps': [{'sync': 0}],
+                    'inbound': [{k: (show(x, m) if k == 'ts' else x) for k, x in d.items()} for d in descs]}
+        res = w.sync(w.dbs[0], w.server, client=0)
+        if res.variant != 0:
+            c.prove(False, 'a version in the documented format written by another implementation was rejected', wit, {'class': 'inbound-rejected', 'err': repr(res)[:200]})
+            return None
+        exp = []
+        for o in meaning:
+            ref_apply(I, exp, clone_val(o))
+        if not c.prove(tasks_eq(w.replica_tasks(0), exp), 'a version in the documented format written by another implementation was misapplied', wit, {'class': 'inbound-misapplied'}):
+            return None
+        c.cover('inbound: foreign version applied')
+        out = {'inbound': [d['kind'] for d in descs]}
+        if c.want_sample:
+            m = c.get_model()
+            if m is not None:
+                out['scenario'] = wit(m)
+                out['predicted'] = {'inbound_tasks': w.concrete_tasks(0, m)}
+            out['_encoded'] = sorted(I.encoded)
+            out['_modelled'] = sorted(I.modelled)
+        return out
+
+
+def foreign_text(descs, m):
+    """the JSON text another implementation would write: compact, keys in the chosen order, RFC 3339 UTC timestamps"""
+    import datetime
+    import json
+
+    def ev(t):
+        return t if isinstance(t, int) else m.eval(t, model_completion=True).as_long()
+
+    def uu(n):
+        h = '%032x' % n
+        return '-'.join([h[:8], h[8:12], h[12:16], h[16:20], h[20:]])
+    ops = []
+    for d in descs:
+        if d['kind'] != 'Update':
+            ops.append('{"%s":{"uuid":"%s"}}' % (d['kind'], uu(d['uuid'])))
+            continue
+        t = datetime.datetime.fromtimestamp(ev(d['ts']), datetime.timezone.utc).strftime('%Y-%m-%dT%H:%M:%SZ')
+        f = {'uuid': json.dumps(uu(d['uuid'])), 'property': json.dumps(d['prop']), 'value': json.dumps(d['value']), 'timestamp': json.dumps(t)}
+        ops.append('{"Update":{%s}}' % ','.join('"%s":%s' % (k, f[k]) for k in d['order']))
+    return '{"operations":[%s]}' % ','.join(ops)
+
+
+def _inbound_expected(scn):
+    """documented meaning of the foreign version, computed from the descriptors (independent of the crate)"""
+    tasks = {}
+    for d in scn.get('inbound', []):
+        u = str(d['uuid'])
+        if d['kind'] == 'Create':
+            tasks.setdefault(u, {})
+        elif d['kind'] == 'Delete':
+            tasks.pop(u, None)
+        elif u in tasks:
+            if d['value'] is None:
+                tasks[u].pop(d['prop'], None)
+            else:
+                tasks[u][d['prop']] = d['value']
+    return tasks
+
 def concrete_doc(d, m):
     """abstract document -> the JSON value the real serde_json would produce (for replay comparison)"""
     k = d[0]
@@ -170,6 +282,14 @@ def _norm_ts(s):
 
 
 def replay_judge(scn, out, v):
+    if 'preload' in scn:
+        if 'panic' in out:
+            return True, [{'panic': out['panic']}]
+        errs = [st for st in out.get('steps', []) if 'err' in st]
+        real = out['replicas'][0]['tasks'] if out.get('replicas') else None
+        exp = _inbound_expected(scn)
+        bad = bool(errs) or real != exp
+        return bad, [{'sync': errs[:1], 'replica': real, 'documented meaning': exp}]
     # judge the real bytes: every op is one of the three documented objects with exactly the documented keys
     probs = []
     if 'panic' in out:
@@ -212,6 +332,11 @@ def replay_judge(scn, out, v):
 
 
 def validate_samples(sample, out):
+    if 'inbound_tasks' in sample['predicted']:
+        real = out['replicas'][0]['tasks'] if out.get('replicas') else None
+        if real != sample['predicted']['inbound_tasks'] or real != _inbound_expected(sample['scenario']):
+            return False, {'predicted': sample['predicted']['inbound_tasks'], 'real': real}
+        return True, None
     real = []
     for ver in out['server']['versions'][sample['predicted'].get('setup_versions', 1):]:
         real.extend(_norm_real(ver['doc']).get('operations', []))
@@ -222,19 +347,24 @@ def validate_samples(sample, out):
 
 
 def required_covers(tier):
-    return ['undo point committed', 'delete of a populated task', 'update carrying an old value']
+    return ['undo point committed', 'delete of a populated task', 'update carrying an old value',
+            'inbound: foreign version applied', 'inbound: fields of an Update in another order', 'inbound: null value']
 
 
 def configs(tier):
     if tier == 'quick':
         return [dict(name='wire', factory=lambda: Harness(2, ('p', 'q'), 'q'),
-                     bounds='one replica, 2 committed operations (each optionally preceded by an undo point) after a populated synced task; 2 task ids, 2 properties')]
+                     bounds='one replica, 2 committed operations (each optionally preceded by an undo point) after a populated synced task; 2 task ids, 2 properties'),
+                dict(name='inbound', factory=lambda: InboundHarness(2, 'iq'),
+                     bounds='a foreign version of 2 operations (Create / Delete / Update with a string / Update with null; 2 task ids, 2 properties; 6 field orders per Update; symbolic timestamps) pulled by an empty replica')]
     return [dict(name='wire-3', factory=lambda: Harness(3, ('p', 'q'), 't'),
-                 bounds='3 committed operations with optional undo points', time_limit_s=3000)]
+                 bounds='3 committed operations with optional undo points', time_limit_s=3000),
+            dict(name='inbound-3', factory=lambda: InboundHarness(3, 'it'), bounds='a foreign version of 3 operations, as quick', time_limit_s=3000)]
 
 
 ASSUMPTIONS = [
-    'outbound direction only: the derive-generated Deserialize impls (inbound documents from other implementations, permuted field order) are not executed; serde_json and chrono produce/parse the byte-level JSON and RFC 3339 text (external crates)',
+    'inbound direction: the derive-generated Deserialize impls of Version and SyncOp (visit_map, visit_enum, identifier visitors) are executed on an abstract document against a model of serde\'s Deserializer protocol; serde_json\'s text parser and the uuid / chrono / std Deserialize impls of the leaf types are external and modelled (a JSON string holding a uuid / an RFC 3339 instant yields that uuid / instant): timestamp precisions and offset forms are therefore outside the symbolic claim; the replay feeds the concrete JSON text (field order as chosen) to the compiled crate through a pre-loaded server',
+    'byte-level JSON and RFC 3339 text are produced/parsed by serde_json and chrono (external crates)',
     'the model serializer implements serde\'s Serializer protocol for the calls the derive output makes (struct_variant/field/end, struct, seq, str, none/some)',
     'the replay compares the abstract documents with the real serde_json bytes on sampled paths (translator validation)',
 ]
